@@ -97,6 +97,12 @@ def gen(ctx, rnd, quick):
         add("native-witness-with-scriptsig", b"\x00\x14" + rb(rnd, 20), bytes([0x51]), [b"\x01", b"\x02"])
         ws = bytes([0x51])
         add("p2wsh-true", b"\x00\x20" + P.sha256(ws), b"", [ws])
+        # a witness script / tapscript leaf that merely LOOKS like a P2SH scriptPubKey is an ordinary script
+        pre = rnd.choice((b"\x00", b"\x51", b"\x61", b"\x6a"))
+        shape = bytes([0xa9, 20]) + P.hash160(pre) + bytes([0x87])
+        add("p2wsh-p2sh-shaped-script", b"\x00\x20" + P.sha256(shape), b"", [pre, shape])
+        s3 = S.build(rnd, "p2tr-script", {"leaf_script": shape, "leaf_args": [pre], "annex": False})
+        cases.append((S.spend_line(s3.tx, s3.txin, R.STD), {"kind": "p2tr-script", "label": "tapscript-p2sh-shaped-leaf", "flags": R.STD}))
         add("p2wsh-extra-item", b"\x00\x20" + P.sha256(ws), b"", [b"\x07", ws])
         add("p2wsh-wrong-hash", b"\x00\x20" + rb(rnd, 32), b"", [ws])
         big = bytes([0x75, 0x51])
